@@ -309,6 +309,8 @@ SAN_ENV = {"ASAN_OPTIONS": "exitcode=66:detect_leaks=1:abort_on_error=0:allocato
 
 
 def run_lines(binp, lines, args=(), env=None, timeout=3600):
+    if isinstance(binp, Router):
+        return run_sharded(binp, lines, args, env, shards=1)
     """run a driver on the given case lines; returns the list of output lines (same length).
     A process that dies is restarted on the remaining cases; the case it died on gets CRASH(<code>)
     (or HANG when the watchdog fired)."""
@@ -356,7 +358,25 @@ def run_lines(binp, lines, args=(), env=None, timeout=3600):
     return outs, notes
 
 
+class Router:
+    """several implementation binaries behind one run interface"""
+    def __init__(self, chk, impls):
+        self.chk, self.impls = chk, impls
+
+
 def run_sharded(binp, lines, args=(), env=None, shards=NPROC):
+    if isinstance(binp, Router):
+        groups = {}
+        for idx, l in enumerate(lines):
+            groups.setdefault(binp.chk.route(l), []).append(idx)
+        outs = [None] * len(lines)
+        notes = []
+        for k, idxs in groups.items():
+            o, nn = run_sharded(binp.impls[k], [lines[i] for i in idxs], args, env, shards)
+            for i, x in zip(idxs, o):
+                outs[i] = x
+            notes += nn
+        return outs, notes
     if len(lines) < 200:
         shards = 1
     n = len(lines)
@@ -403,7 +423,8 @@ class Check:
     title = ""
     vfiles = []
     level = "proof"
-    cpp = None      # dict(name, src, repo_srcs, flags?, libs?, defines?)
+    cpp = None      # dict(name, driver_src, repo_srcs, flags?, libs?, defines?)
+    cpps = None     # optional: {variant: dict(...)} several implementation binaries; route(case) picks one per case
     ocaml = None    # dict(name, extracted, glue)
     corpus = None   # file under corpus/ with one case per line, run first
     rule = ""
@@ -411,6 +432,10 @@ class Check:
 
     def cases(self, tier, rng):
         raise NotImplementedError
+
+    def route(self, case):
+        """name of the implementation variant (key of self.cpps) that runs this case"""
+        return None
 
     def signature(self, case, mobs, iobs):
         w = case.split(" ", 1)[0]
@@ -493,12 +518,23 @@ def run_check(chk, tier, replay=None):
             model = build_ocaml(**chk.ocaml)
     except BuildError as e:
         build_err = ("model driver does not build", str(e))
+    impls = {}
     try:
         if chk.cpp:
             impl = build_cpp(**chk.cpp)
+            impls[None] = impl
+        if chk.cpps:
+            with ThreadPoolExecutor(4) as ex:
+                futs = {k: ex.submit(build_cpp, **spec) for k, spec in chk.cpps.items()}
+                for k, f in futs.items():
+                    impls[k] = f.result()
+            if impl is None:
+                impl = Router(chk, impls)
+            else:
+                impl = Router(chk, impls)
     except BuildError as e:
         build_err = ("C++ driver does not compile against the current /repo tree", str(e))
-    ctx["impl"], ctx["model"] = impl, model
+    ctx["impl"], ctx["model"], ctx["impls"] = impl, model, impls
 
     known, fixed = load_known()
     known = [k for k in known if chk.prop in k["props"]]
